@@ -71,9 +71,9 @@ def obligations(tier):
         # H4: two faulty requests in a row
         for f1 in range(5):
             for f2 in range(1, 5):
-                # fault kind 2 (failed transfer of one part) is split by the part that fails (parts 0, 2, 4)
-                g1s = (0, 2, 4) if f1 == 2 else (0,)
-                g2s = (0, 2, 4) if f2 == 2 else (0,)
+                # fault kind 2 (failed transfer of one part) is split by the part that fails (parts 0 and 4)
+                g1s = (0, 4) if f1 == 2 else (0,)
+                g2s = (0, 4) if f2 == 2 else (0,)
                 for g1 in g1s:
                     for g2 in g2s:
                         sym = {'pre_b': (B, 0, 0), 'w1': (I, 0, 1), 'd1': (I, 0, 1), 'p1': (I, 0, 5), 'k1': (I, 1, 3),
